@@ -74,6 +74,20 @@ class _NPs:
     def frombuffer(b, dtype=None):
         return _Out(b[1] // {"int8": 1, "int16": 2, "int32": 4}[dtype], dtype)
 
+    # elementwise comparison with a scalar (into `out` when given: the array then HOLDS the 0/1 result) and the count of
+    # non-zero entries - numpy's documented contracts
+    @staticmethod
+    def equal(a, b, out=None):
+        r = [x == b for x in a.items]
+        if out is None:
+            return type(a)(r)
+        out.items[:] = [1 if t else 0 for t in r]
+        return out
+
+    @staticmethod
+    def count_nonzero(a):
+        return len([x for x in a.items if x])
+
 
 CALLS = [[]]
 
